@@ -209,7 +209,7 @@ def gen_fail(tier, rng):
         else:
             a = rstr(30)
         out.append(fail(k, tb(e), tb(a), tb(rng.choice(TEXTS))))
-    for size in ([2000, 10240] if tier == "quick" else [2000, 4096, 10240, 65536]):
+    for size in ([2000, 10240] if tier == "quick" else [2000, 4096, 10240, 24576]):      # the extracted model is quadratic in the text length: 24 KiB = ~75 s per scenario
         big = bytes(rng.choice(b"abcdefghijklmnopqrstuvwxyz \n\x01") for _ in range(size))
         out.append(fail("se", tb(big), tb(big[:-1] + b"#"), tb(b"")))
         out.append(fail("ce", tb(big), tb(big), tb(b"")))
